@@ -11,7 +11,7 @@ import datetime
 from . import corelib, gen
 from . import schema as S
 
-THEOREMS = ["Mashu.Tz.tz_roundtrip", "Mashu.Tz.tz_roundtrip_table", "Mashu.Tz.utc_pattern_pinned", "Mashu.roundtrip"]
+THEOREMS = ["Mashu.Tz.tz_roundtrip", "Mashu.Tz.tz_roundtrip_table", "Mashu.Tz.utc_pattern_pinned", "Mashu.Tz.tz_fullmatch_pinned", "Mashu.roundtrip"]
 RULE = (
     "type-directed generation without key-dropping options (no omit / init=False, aliases only together with serialize_by_alias); one conforming "
     "value per schema from per-leaf pools (negative / sub-hour offsets, aware datetimes, negative timedeltas, big ints, quote-bearing strings); "
